@@ -233,10 +233,111 @@ def readPatchLoop : (fuel : Nat) → List PatchOp → Diff → Outcome Diff
             else acc ++ [e]
         readPatchLoop fuel rest acc'
 
+/-! ### the tests read as context are absolute: they must address the neighbours of the edit -/
+
+/-- `patchContext`: the ops which were taken as the before / after context of a diff element -/
+structure PatchCtx where
+  before : Option PatchOp := none
+  after : Option PatchOp := none
+
+/-- the ops `setPatchDiffElementContext` consumed in front of the element read from `patch`, as
+    `readPatchDiffElement` remembers them: `all[:len(all)-len(patch)]`, two = before and after, one =
+    before when the element's Before is a value, else after -/
+def ctxOf (patch : List PatchOp) : PatchCtx :=
+  match patch with
+  | [] => {}
+  | p :: _ =>
+    if p.op == "test" then
+      match setPatchCtx patch with
+      | .ok c =>
+        let used := patch.take (patch.length - c.rest.length)
+        (match used with
+         | [u0, u1] => { before := some u0, after := some u1 }
+         | [u0] =>
+           (match c.before with
+            | some [b] => if !b.isVoid then { before := some u0 } else { after := some u0 }
+            | _ => { after := some u0 })
+         | _ => {})
+      | _ => {}
+    else {}
+
+/-- `check(test, offset)` of `checkPatchContext`: a `test` op whose pointer is the element's path with
+    its last index moved by `offset`, the element's index not being negative -/
+def ctxTestOK (h : Hunk) (t : PatchOp) (offset : Int) : Outcome Bool :=
+  match readPointer t.path with
+  | .err => .err
+  | .panic => .panic
+  | .ok p =>
+    .ok (t.op == "test" && !p.isEmpty && p.length == h.path.length &&
+      (match lastIdx? p, lastIdx? h.path with
+       | some i, some j => decide (j ≥ 0) && i == j + offset &&
+           equals [] (pathToJson p.dropLast) (pathToJson h.path.dropLast)
+       | _, _ => false))
+
+/-- `checkPatchContext(e, c)` -/
+def checkPatchCtx (h : Hunk) (c : PatchCtx) : Outcome Unit :=
+  let one (t : Option PatchOp) (offset : Int) : Outcome Unit :=
+    match t with
+    | none => .ok ()
+    | some t =>
+      match ctxTestOK h t offset with
+      | .ok true => .ok ()
+      | .ok false => .err
+      | .err => .err
+      | .panic => .panic
+  match one c.before (-1) with
+  | .ok () => one c.after h.remove.length
+  | e => e
+
+/-- the element loop of `ReadPatchString` once more, keeping for every diff element the context ops of
+    the FIRST element coalesced into it (a coalesced element never has context) -/
+def readPatchCtxLoop : (fuel : Nat) → List PatchOp → Diff → List PatchCtx → Outcome (List PatchCtx)
+  | 0, _, _, _ => .err
+  | fuel + 1, patch, acc, cs =>
+    match patch with
+    | [] => .ok cs
+    | _ =>
+      match readPatchHunk patch with
+      | .err => .err
+      | .panic => .panic
+      | .ok (e, rest) =>
+        match acc.getLast? with
+        | none => readPatchCtxLoop fuel rest [e] (cs ++ [ctxOf patch])
+        | some last =>
+          if equals [] (pathToJson last.path) (pathToJson e.path) && !(hasContext e) &&
+             !(!e.remove.isEmpty && !last.add.isEmpty) then
+            readPatchCtxLoop fuel rest
+              (acc.dropLast ++ [{ last with remove := last.remove ++ e.remove,
+                                            add := if lastIdx? e.path == some (-1) then last.add ++ e.add else e.add ++ last.add }]) cs
+          else readPatchCtxLoop fuel rest (acc ++ [e]) (cs ++ [ctxOf patch])
+
+/-- all elements pass `checkPatchContext`, in order -/
+def checkPatchCtxs : Diff → List PatchCtx → Outcome Unit
+  | h :: d, c :: cs =>
+    (match checkPatchCtx h c with
+     | .ok () => checkPatchCtxs d cs
+     | e => e)
+  | _, _ => .ok ()
+
+/-- `ReadPatchString` on the op list: the element loop, then the context check -/
+def readPatchOps (ops : List PatchOp) : Outcome Diff :=
+  match readPatchLoop (ops.length + 1) ops [] with
+  | .ok d =>
+    (match readPatchCtxLoop (ops.length + 1) ops [] [] with
+     | .ok cs =>
+       (match checkPatchCtxs d cs with
+        | .ok () => .ok d
+        | .err => .err
+        | .panic => .panic)
+     | .err => .err
+     | .panic => .panic)
+  | .err => .err
+  | .panic => .panic
+
 /-- `ReadPatchString` on the parsed JSON document of the patch text -/
 def readPatchDoc (doc : Json) : Outcome Diff :=
   match patchOpsOfJson doc with
-  | .ok ops => readPatchLoop (ops.length + 1) ops []
+  | .ok ops => readPatchOps ops
   | .err => .err
   | .panic => .panic
 
